@@ -398,7 +398,7 @@ func NewNNSDriver(mode string) *NNSDriver {
 		}
 		add(nnsOp{kind: "add", name: "n1.com", typ: rtCNAME, data: "n0.com", signer: u},
 			nnsOp{kind: "add", name: "n4.com", typ: rtCNAME, data: "n4.com", signer: u},
-			nnsOp{kind: "add", name: "n2.com", typ: rtCNAME, data: "s.n4.com", signer: u}, // into a sub-name kept under n4.com
+			nnsOp{kind: "add", name: "n2.com", typ: rtCNAME, data: "s.n4.com", signer: u},           // into a sub-name kept under n4.com
 			nnsOp{kind: "add", name: "n0.com", typ: rtCNAME, data: "n1.com.", signer: u, bad: true}, // a target in fully qualified form is not a valid name
 			nnsOp{kind: "del", name: "n1.com", typ: rtCNAME, signer: u},
 			nnsOp{kind: "del", name: "n2.com", typ: rtCNAME, signer: u},
